@@ -79,7 +79,7 @@ func predicates(r *rand.Rand, s *gen.Stream) []pred {
 }
 
 func runC19(c *mon.Ctx) {
-	n := c.Pick(300, 4000)
+	n := c.Pick(1000, 6000)
 	for i := int64(0); i < n; i++ {
 		if !c.Mine("streams", i) {
 			continue
@@ -182,6 +182,45 @@ func skipperCase(c *mon.Ctx, idx int64, s *gen.Stream, ref []*astits.Packet, pr 
 		}
 	}
 	c.Case(mon.HashBytes("c19s/"+pr.name+api, s.Bytes), skipped > 0 && skipped < len(ref))
+	// the same after a Rewind: the predicate must be consulted again for every packet, the output must equal the filtered stream
+	if pr.name == "coin" {
+		return // per-index decisions would need the same indices again: covered by the stateless predicates
+	}
+	dmx, _ := NewDemuxerFor(s.Bytes, cfg)
+	j := 1 + int(idx)%3
+	for k := 0; k < j; k++ {
+		if api == "packet" {
+			dmx.NextPacket()
+		} else {
+			dmx.NextData()
+		}
+	}
+	calls, problems, decisions = 0, nil, nil
+	if _, err := dmx.Rewind(); err != nil {
+		c.Violate("C19/skipper/rewind-error", "streams", idx, err.Error(), data)
+		return
+	}
+	var got []Item
+	for k := 0; k < len(s.Bytes)+64; k++ {
+		var it Item
+		if api == "packet" {
+			it.Packet, it.Err = dmx.NextPacket()
+		} else {
+			it.Data, it.Err = dmx.NextData()
+		}
+		if errors.Is(it.Err, astits.ErrNoMorePackets) {
+			break
+		}
+		got = append(got, it)
+	}
+	c.Count("skipper_runs_after_rewind")
+	if calls != len(ref) {
+		c.Violate("C19/skipper/callback-count-after-rewind:"+api, "streams", idx, fmt.Sprintf("after Rewind the predicate was consulted %d times for %d packets", calls, len(ref)), data)
+		return
+	}
+	if d := itemsEqual(got, base.Items); d != "" {
+		c.Violate("C19/skipper/differs-from-filtered-stream-after-rewind:"+pr.name+":"+api, "streams", idx, d, data)
+	}
 }
 
 func itemsEqualNoPos(a, b []Item) string { return itemsEqual(a, b) }
